@@ -172,6 +172,7 @@ func newRig(o rigOpts) (*rig, error) {
 	if !o.defaultAgent {
 		r.agent = sim.NewTapAgent(w)
 		r.agent.CloseErr = o.agentCloseErr
+		r.agent.VirtualClock = !o.realClock
 		if o.noConnClose {
 			// precondition of C15 under WithNoConnClose: the connection's Read eventually returns
 			r.agent.OnClosed = r.conn.ReleaseRead
@@ -694,6 +695,12 @@ func (r *rig) judge(o oracleSet, final bool) []rigProblem {
 			}
 		}
 		r.mu.Unlock()
+	}
+	if r.agent != nil && atomic.LoadInt32(&r.agent.OffClock) > 0 && (o.writes || o.exactlyOnce) {
+		ex, _ := r.agent.OffClockExample.Load().(string)
+		probs = append(probs, rigProblem{"collect-off-clock", "collect-off-clock",
+			fmt.Sprintf("the client was given a Clock, yet %d of %d Collect calls carried a time that clock never showed (first: %s)",
+				atomic.LoadInt32(&r.agent.OffClock), atomic.LoadInt32(&r.agent.Collects), ex)})
 	}
 	if atomic.LoadInt32(&r.conn.ReaderGone) > 0 {
 		probs = append(probs, rigProblem{"reader-gone", "reader-gone", "a datagram was not taken by the reader within the watchdog although the client was open"})
